@@ -476,7 +476,7 @@ func (c *compiler) compile(tok *token) []instruction {
 					res = append(res, instruction{Code: codeCast, A: reg(typ)})
 				}
 			}
-			res = append(res, instruction{Code: code, A: reg(idx)})
+			res = append(res, instruction{Code: code, A: reg(idx), B: 1}) // B: an untyped constant stays untyped (const N = 10; var f float64 = N)
 		}
 	case ":=", "var":
 		values := c.compile(tok.Tokens[1])
